@@ -74,6 +74,29 @@ def r1_nearest_wins(ctx, rep, R='C09.R1'):
                       'the recursive call passes %s as %s: an inner suite would not inherit the '
                       'nearest enclosing declaration' % (norm(a) if a is not None else 'nothing', pname),
                       key='pass-down:' + attr, func=fi.qualname, where=ctx.where(fi, c))
+    # every member of a suite is visited, whatever the suite's own level is: the nearest
+    # declaration of an inner test can only win if the walk reaches it
+    g = ctx.cfg(fi)
+    from .common import nodes_calling
+    for c in rec:
+        lits = path_literals(c, fi.node)
+        txt = [(norm(e), pos) for e, pos in lits]
+        rn = nodes_calling(g, lambda x: x is c)
+        branch = [n for n in g.nodes if n.kind == 'test' and 'isinstance' in norm(n.ast) and
+                  'TestSuite' in norm(n.ast)]
+        loops = [n for n in g.nodes if n.kind == 'for' and is_name(n.ast, ps[0]) and
+                 any(r in g.loop_nodes(n.id) for r in rn)]
+        ok = txt == [('isinstance(%s, unittest.TestSuite)' % ps[0], True)] and bool(branch) and bool(loops)
+        if ok:
+            start = [d for d, k in g.succ[branch[0].id] if k == 'true']
+            okp, _ = g.every_path_passes(start, [g.exit], {loops[0].id}, include_start=True)
+            body = [d for d, k in g.succ[loops[0].id] if k == 'true']
+            r = g.reach(body, avoid=set(rn), include_start=True)
+            ok = okp and loops[0].id not in r and g.exit not in r
+        rep.check(ok, R, 'every member of a TestSuite is visited unconditionally',
+                  'the walk into a suite is conditional (%s) or can be left early: an inner test '
+                  'with its own (nearer) level/layer declaration would never be looked at' % txt,
+                  key='visit-all', func=fi.qualname, where=ctx.where(fi, c))
     # re-assignments of the layer local only normalise it to a name
     layer_loc = locs['layer'][0]
     for n in ast.walk(fi.node):
